@@ -2477,6 +2477,10 @@ fn core_word_join(xs: &mut State) -> Xresult {
 fn core_word_sort(xs: &mut State) -> Xresult {
     let v = xs.pop_data()?.to_vec()?;
     let mut tmp: Vec<Cell> = v.iter().cloned().collect();
+    // only mutually comparable elements have an order (slice::sort panics on a non-total one)
+    if let Some(w) = tmp.windows(2).find(|w| w[0].partial_cmp(&w[1]).is_none()) {
+        return Err(Xerr::type_not_supported(w[1].clone()));
+    }
     tmp.sort();
     let sorted = Xvec::from_iter(tmp.into_iter());
     xs.push_data(Cell::from(sorted))
